@@ -22,6 +22,8 @@ Layer T2 facts for C12 (xrspatial/classify.py) -> lean/XrsVerif/Gen/ClassifyFact
 import ast
 import os
 
+from pynorm import Refuse, assign_name, bind, func_params, names_in, normalize, same
+
 REL = "xrspatial/classify.py"
 OPS = {ast.Lt: "lt", ast.LtE: "le", ast.Gt: "gt", ast.GtE: "ge"}
 FLIP = {"lt": "gt", "le": "ge", "gt": "lt", "ge": "le"}
@@ -52,121 +54,174 @@ def const_int(n):
     return None
 
 
+def is_name(n, ident):
+    return isinstance(n, ast.Name) and n.id == ident
+
+
 def offset(n, base):
-    """n == base + c  ->  c   (base None: n is the constant c)"""
+    """n == base + c  ->  c.  base: None (n is the constant c), a name, or a predicate on nodes (e.g. `len(bins)`)"""
     if base is None:
         c = const_int(n)
         need(c is not None, "constant index expected: " + ast.unparse(n))
         return c
-    if isinstance(n, ast.Name) and n.id == base:
+    is_base = base if callable(base) else (lambda x: is_name(x, base))
+    if is_base(n):
         return 0
-    if isinstance(n, ast.BinOp) and isinstance(n.left, ast.Name) and n.left.id == base:
+    if isinstance(n, ast.BinOp) and is_base(n.left):
         c = const_int(n.right)
         need(c is not None, "offset expected: " + ast.unparse(n))
         if isinstance(n.op, ast.Add):
             return c
         if isinstance(n.op, ast.Sub):
             return -c
-    raise NoMatch(f"expected {base} + c, got {ast.unparse(n)}")
+    if isinstance(n, ast.BinOp) and isinstance(n.op, ast.Add) and is_base(n.right) and const_int(n.left) is not None:
+        return const_int(n.left)                      # c + base
+    raise NoMatch(f"expected <base> + c, got {ast.unparse(n)}")
 
 
-def is_sub(n, arr):
-    return isinstance(n, ast.Subscript) and isinstance(n.value, ast.Name) and n.value.id == arr
-
-
-def cmp_val_bins(test, base, val_left):
-    """test is `val op bins[base + c]` or `bins[base + c] op val`; returns (op, c) normalised so that
-    val is on the left when val_left else bins is on the left"""
+def cmp_val_bins(test, base, val_left, is_val, bins):
+    """test is `VAL op BINS[base + c]` or `BINS[base + c] op VAL`; returns (op, c) normalised so that
+    VAL is on the left when val_left else BINS is on the left"""
     need(isinstance(test, ast.Compare) and len(test.ops) == 1 and type(test.ops[0]) in OPS, "comparison: " + ast.unparse(test))
     op = OPS[type(test.ops[0])]
     a, b = test.left, test.comparators[0]
-    if isinstance(a, ast.Name) and a.id == "val" and is_sub(b, "bins"):
+
+    def is_sub(n):
+        return isinstance(n, ast.Subscript) and is_name(n.value, bins)
+    if is_val(a) and is_sub(b):
         c = offset(b.slice, base)
         return (op if val_left else FLIP[op]), c
-    if isinstance(b, ast.Name) and b.id == "val" and is_sub(a, "bins"):
+    if is_val(b) and is_sub(a):
         c = offset(a.slice, base)
         return (FLIP[op] if val_left else op), c
-    raise NoMatch("val/bins comparison: " + ast.unparse(test))
+    raise NoMatch("value/bins comparison: " + ast.unparse(test))
 
 
-def assign_of(stmt, name):
-    need(isinstance(stmt, ast.Assign) and len(stmt.targets) == 1 and isinstance(stmt.targets[0], ast.Name)
-         and stmt.targets[0].id == name, f"assignment to {name}: " + ast.unparse(stmt))
-    return stmt.value
+def target_of(stmt, what):
+    an = assign_name(stmt)
+    need(an is not None, f"assignment ({what}): " + ast.unparse(stmt).splitlines()[0])
+    return an
 
 
-def is_mid_formula(v):
-    """(end + start) // 2"""
+def is_mid_formula(v, start, end):
+    """(end + start) // 2, the sum in either order"""
     if not (isinstance(v, ast.BinOp) and isinstance(v.op, ast.FloorDiv) and const_int(v.right) == 2):
         return False
     s = v.left
     if not (isinstance(s, ast.BinOp) and isinstance(s.op, ast.Add)):
         return False
     names = sorted(x.id for x in (s.left, s.right) if isinstance(x, ast.Name))
-    return names == ["end", "start"]
+    return names == sorted([start, end]) and start != end
 
 
 def cpu_bin_shape(mod):
-    f = find_func(mod, "_cpu_bin")
-    need(f is not None, "_cpu_bin not found")
-    inner = None
-    for n in ast.walk(f):
-        if isinstance(n, ast.If) and isinstance(n.test, ast.Call) and ast.unparse(n.test) == "np.isfinite(val)":
-            inner = n
-    need(inner is not None, "`if np.isfinite(val)` not found")
+    """reads the normal form of `_cpu_bin` (pynorm: `range(0, n)`, mirrored comparisons, single-use temporaries such as
+    `val = data[y, x]` / `nbins = len(bins)` are spelled one way); the loop variables are found by their role
+    (targets of the set-up assignments), not by their names"""
+    f0 = find_func(mod, "_cpu_bin")
+    need(f0 is not None, "_cpu_bin not found")
+    f = normalize(f0)
+    try:
+        params = func_params(f)
+    except Refuse as ex:
+        raise NoMatch(str(ex))
+    need(len(params) == 3, "_cpu_bin(data, bins, new_values)")
+    data, bins, newv = params
+    found = []
+
+    def rec(stmts, fors):
+        for i, n in enumerate(stmts):
+            if isinstance(n, ast.If) and isinstance(n.test, ast.Call) and ast.unparse(n.test.func) in ("np.isfinite", "numpy.isfinite") \
+                    and len(n.test.args) == 1 and not n.test.keywords:
+                found.append((stmts, i, n, fors))
+            for fld in ("body", "orelse"):
+                b = getattr(n, fld, None)
+                if isinstance(b, list) and b and isinstance(b[0], ast.stmt):
+                    rec(b, fors + [n] if isinstance(n, ast.For) else fors)
+    rec(f.body, [])
+    need(len(found) == 1, "exactly one `if np.isfinite(<cell>)`")
+    block, pos, inner, fors = found[0]
+    val = inner.test.args[0]
+    need(len(fors) == 2 and all(isinstance(l.target, ast.Name) and not l.orelse for l in fors), "two nested loops over the cells")
+    yv, xv = fors[0].target.id, fors[1].target.id
+    need(isinstance(val, ast.Subscript) and is_name(val.value, data) and isinstance(val.slice, ast.Tuple)
+         and [ast.unparse(e) for e in val.slice.elts] == [yv, xv], "the cell is data[y, x] of the two loop variables")
+    for l, dim in zip(fors, (0, 1)):
+        it = l.iter
+        need(isinstance(it, ast.Call) and is_name(it.func, "range") and len(it.args) == 1 and not it.keywords, "range(<extent>) loops")
+    need(any(same(st, ast.parse(f"{ast.unparse(fors[0].iter.args[0])}, {ast.unparse(fors[1].iter.args[0])} = {data}.shape").body[0])
+             for st in f.body), "loop extents are data.shape")
+
+    def is_val(n):
+        return same(n, val)
+
+    def is_nbins(n):
+        return isinstance(n, ast.Call) and is_name(n.func, "len") and len(n.args) == 1 and not n.keywords and is_name(n.args[0], bins)
     need(not inner.orelse and len(inner.body) == 1 and isinstance(inner.body[0], ast.If), "body of the isfinite test")
     sh = {}
-    # nbins = len(bins); val = data[y, x]; val_bin = -1
-    src = ast.unparse(f)
-    need("nbins = len(bins)" in src and "val = data[y, x]" in src, "nbins / val bindings")
     first = inner.body[0]
-    sh["firstOp"], sh["firstIdx"] = cmp_val_bins(first.test, None, True)
+    sh["firstOp"], sh["firstIdx"] = cmp_val_bins(first.test, None, True, is_val, bins)
     need(len(first.body) == 1, "first branch")
-    sh["firstBin"] = offset(assign_of(first.body[0], "val_bin"), None)
+    vb, v0 = target_of(first.body[0], "val_bin in the first branch")
+    sh["firstBin"] = offset(v0, None)
     need(len(first.orelse) == 1 and isinstance(first.orelse[0], ast.If) and not first.orelse[0].orelse, "elif branch")
     last = first.orelse[0]
-    sh["lastOp"], sh["lastOff"] = cmp_val_bins(last.test, "nbins", True)
+    sh["lastOp"], sh["lastOff"] = cmp_val_bins(last.test, is_nbins, True, is_val, bins)
     body = last.body
     need(len(body) == 5, "loop set-up: start, end, mid, while, val_bin")
-    sh["startInit"] = offset(assign_of(body[0], "start"), None)
-    sh["endOff"] = offset(assign_of(body[1], "end"), "nbins")
-    need(is_mid_formula(assign_of(body[2], "mid")), "mid = (end + start) // 2 before the loop")
+    start, v = target_of(body[0], "start")
+    sh["startInit"] = offset(v, None)
+    end, v = target_of(body[1], "end")
+    sh["endOff"] = offset(v, is_nbins)
+    mid, v = target_of(body[2], "mid")
+    need(len({start, end, mid, vb, data, bins, newv, yv, xv}) == 9, "distinct loop variables")
+    need(is_mid_formula(v, start, end), "mid = (end + start) // 2 before the loop")
     w = body[3]
     need(isinstance(w, ast.While) and not w.orelse, "while loop")
     t = w.test
     need(isinstance(t, ast.Compare) and len(t.ops) == 1 and type(t.ops[0]) in OPS and isinstance(t.left, ast.Name)
          and isinstance(t.comparators[0], ast.Name), "loop test")
     op = OPS[type(t.ops[0])]
-    if (t.left.id, t.comparators[0].id) == ("start", "end"):
+    if (t.left.id, t.comparators[0].id) == (start, end):
         sh["loopOp"] = op
-    elif (t.left.id, t.comparators[0].id) == ("end", "start"):
+    elif (t.left.id, t.comparators[0].id) == (end, start):
         sh["loopOp"] = FLIP[op]
     else:
         raise NoMatch("loop test: " + ast.unparse(t))
     need(len(w.body) == 2 and isinstance(w.body[0], ast.If), "loop body")
-    need(is_mid_formula(assign_of(w.body[1], "mid")), "mid = (end + start) // 2 at the end of the loop body")
+    m2, v = target_of(w.body[1], "mid at the end of the loop body")
+    need(m2 == mid and is_mid_formula(v, start, end), "mid = (end + start) // 2 at the end of the loop body")
     r = w.body[0]
-    sh["rightOp"], sh["rightOff"] = cmp_val_bins(r.test, "mid", False)
+    sh["rightOp"], sh["rightOff"] = cmp_val_bins(r.test, mid, False, is_val, bins)
     need(len(r.body) == 1, "go-right branch")
-    sh["rightStep"] = offset(assign_of(r.body[0], "start"), "mid")
+    tgt, v = target_of(r.body[0], "start in the go-right branch")
+    need(tgt == start, "go-right branch moves start")
+    sh["rightStep"] = offset(v, mid)
     need(len(r.orelse) == 1 and isinstance(r.orelse[0], ast.If), "elif in loop")
-    s = r.orelse[0]
-    sh["stopOp"], sh["stopOff"] = cmp_val_bins(s.test, "mid", True)
-    need(len(s.body) == 1 and isinstance(s.body[0], ast.Break), "break branch")
-    need(len(s.orelse) == 1, "go-left branch")
-    sh["leftStep"] = offset(assign_of(s.orelse[0], "end"), "mid")
-    need(ast.unparse(assign_of(body[4], "val_bin")) == "mid", "val_bin = mid")
-    # val_bin = <init> before, used when val_bin > -1
-    init = None
-    for n in ast.walk(f):
-        if isinstance(n, ast.Assign) and len(n.targets) == 1 and isinstance(n.targets[0], ast.Name) \
-                and n.targets[0].id == "val_bin" and const_int(n.value) is not None and n not in (first.body[0],):
-            init = const_int(n.value) if init is None else init
-    need(init is not None, "val_bin initialisation")
-    sh["initBin"] = init
-    use = [n for n in ast.walk(f) if isinstance(n, ast.If) and ast.unparse(n.test) == "val_bin > -1"]
-    need(len(use) == 1 and ast.unparse(use[0].body[0]) == "out[y, x] = new_values[val_bin]"
-         and ast.unparse(use[0].orelse[0]) == "out[y, x] = np.nan", "use of val_bin")
+    s_ = r.orelse[0]
+    sh["stopOp"], sh["stopOff"] = cmp_val_bins(s_.test, mid, True, is_val, bins)
+    need(len(s_.body) == 1 and isinstance(s_.body[0], ast.Break), "break branch")
+    need(len(s_.orelse) == 1, "go-left branch")
+    tgt, v = target_of(s_.orelse[0], "end in the go-left branch")
+    need(tgt == end, "go-left branch moves end")
+    sh["leftStep"] = offset(v, mid)
+    tgt, v = target_of(body[4], "val_bin after the loop")
+    need(tgt == vb and is_name(v, mid), "val_bin = mid")
+    # val_bin = <init> before the search, used when val_bin > -1 after it
+    inits = [assign_name(st) for st in block[:pos] if assign_name(st) and assign_name(st)[0] == vb]
+    need(len(inits) == 1 and const_int(inits[0][1]) is not None, "val_bin initialisation")
+    sh["initBin"] = const_int(inits[0][1])
+    use = [n for n in block[pos + 1:] if isinstance(n, ast.If)]
+    need(len(use) == 1 and len(block) == pos + 2, "use of val_bin directly after the search")
+    u = use[0]
+    need(ast.unparse(u.test) == f"-1 < {vb}", "val_bin > -1")
+    need(len(u.body) == 1 and len(u.orelse) == 1 and isinstance(u.body[0], ast.Assign) and isinstance(u.orelse[0], ast.Assign),
+         "use of val_bin")
+    outn = u.body[0].targets[0].value.id if isinstance(u.body[0].targets[0], ast.Subscript) \
+        and isinstance(u.body[0].targets[0].value, ast.Name) else None
+    need(outn is not None and ast.unparse(u.body[0]) == f"{outn}[{yv}, {xv}] = {newv}[{vb}]"
+         and ast.unparse(u.orelse[0]) in (f"{outn}[{yv}, {xv}] = np.nan", f"{outn}[{yv}, {xv}] = numpy.nan"), "use of val_bin")
+    need(isinstance(f.body[-1], ast.Return) and is_name(f.body[-1].value, outn), "the filled array is returned")
     return sh
 
 
@@ -186,165 +241,335 @@ def lean_shape(sh, ok):
             f"  initBin := {f(sh['initBin'])} }}")
 
 
-def dtype_of_zeros(func, name):
-    """`name = np.zeros(..., dtype=np.X)` -> 'X'"""
-    if func is None:
-        return "?"
-    for n in ast.walk(func):
-        if isinstance(n, ast.Assign) and len(n.targets) == 1 and isinstance(n.targets[0], ast.Name) \
-                and n.targets[0].id == name and isinstance(n.value, ast.Call):
-            for k in n.value.keywords:
-                if k.arg == "dtype":
-                    return ast.unparse(k.value).replace("np.", "")
-            return "float64"
+NP = ("np", "numpy", "module")
+
+
+def np_call(n, names):
+    """`np.<name>(...)` / `module.<name>(...)` with name in names -> name"""
+    if isinstance(n, ast.Call) and isinstance(n.func, ast.Attribute) and isinstance(n.func.value, ast.Name) \
+            and n.func.value.id in NP + ("da", "cupy") and n.func.attr in names:
+        return n.func.attr
+    return None
+
+
+def dtype_name(n):
+    if isinstance(n, ast.Constant) and isinstance(n.value, str):
+        return n.value
+    if isinstance(n, ast.Attribute) and isinstance(n.value, ast.Name) and n.value.id in NP:
+        return n.attr
+    if isinstance(n, ast.Name) and n.id in ("float", "int"):
+        return {"float": "float64", "int": "int64"}[n.id]
     return "?"
 
 
-def sets_last(stmts, arr, value):
-    """a statement `arr[-1] = value` directly in this statement list"""
-    for s in stmts:
-        if isinstance(s, ast.Assign) and len(s.targets) == 1 and ast.unparse(s.targets[0]) == f"{arr}[-1]" \
-                and ast.unparse(s.value) == value:
-            return True
-    return False
+def dtype_of_returned_zeros(func, which=None):
+    """dtype of the `np.zeros(shape, dtype=...)` array the function returns (`which`: position in a returned tuple)"""
+    if func is None:
+        return "?"
+    f = normalize(func, inline=False)
+    ret = [s for s in f.body if isinstance(s, ast.Return)]
+    if len(ret) != 1 or ret[0].value is None:
+        return "?"
+    r = ret[0].value
+    if which is not None:
+        if not (isinstance(r, ast.Tuple) and which < len(r.elts)):
+            return "?"
+        r = r.elts[which]
+    if not isinstance(r, ast.Name):
+        return "?"
+    defs = [n.value for n in ast.walk(f) if assign_name(n) and assign_name(n)[0] == r.id]
+    if len(defs) != 1 or not np_call(defs[0], ("zeros", "empty", "full", "ones")):
+        return "?"
+    try:
+        a = bind(defs[0], ["shape", "dtype", "order"])
+    except Refuse:
+        return "?"
+    return dtype_name(a["dtype"]) if "dtype" in a else "float64"
+
+
+def top_stores(f, name):
+    """indices of the top-level statements that bind / store through `name`"""
+    out = []
+    for i, s in enumerate(f.body):
+        for n in ast.walk(s):
+            if isinstance(n, ast.Name) and n.id == name and isinstance(n.ctx, ast.Store):
+                out.append(i)
+            if isinstance(n, ast.Subscript) and isinstance(n.ctx, ast.Store) and is_name(n.value, name):
+                out.append(i)
+    return sorted(set(out))
+
+
+def last_forced(f, stmts, arr, is_value, before=None):
+    """a statement `arr[-1] = <value>` directly in `stmts`, after which `arr` is not touched again in `stmts`;
+    returns its index or None"""
+    hit = None
+    for i, s in enumerate(stmts):
+        touched = any((isinstance(n, ast.Name) and n.id == arr and isinstance(n.ctx, ast.Store))
+                      or (isinstance(n, ast.Subscript) and isinstance(n.ctx, ast.Store) and is_name(n.value, arr))
+                      for n in ast.walk(s))
+        if isinstance(s, ast.Assign) and len(s.targets) == 1 and isinstance(s.targets[0], ast.Subscript) \
+                and is_name(s.targets[0].value, arr) and const_int(s.targets[0].slice) == -1 and is_value(s.value):
+            hit = i
+        elif touched:
+            hit = None
+    return hit
+
+
+def max_names(f):
+    """names that hold the raster maximum: assigned from `<np>.nanmax(...)` / `np.max(...)`"""
+    out = set()
+    for n in ast.walk(f):
+        an = assign_name(n)
+        if an and np_call(an[1], ("nanmax", "max", "amax")):
+            out.add(an[0])
+    return out
+
+
+def is_max(v, mx):
+    """the raster maximum: a name that holds it, or the call itself (the name may have been a single-use temporary)"""
+    return (isinstance(v, ast.Name) and v.id in mx) or bool(np_call(v, ("nanmax", "max", "amax")))
+
+
+def unique_call(f, name):
+    calls = [n for n in ast.walk(f) if isinstance(n, ast.Call) and is_name(n.func, name)]
+    return calls[0] if len(calls) == 1 else None
+
+
+def bin_args(mod, f):
+    """the arguments of the single `_bin(agg, bins, new_values)` call of f, by parameter name"""
+    b = find_func(mod, "_bin")
+    call = unique_call(f, "_bin")
+    if b is None or call is None:
+        return None
+    try:
+        a = bind(call, func_params(b))
+    except Refuse:
+        return None
+    return {p_: a[p_] for p_ in func_params(b)} if set(a) == set(func_params(b)) and len(a) == 3 else None   # in parameter order
 
 
 def natural_break_facts(mod):
-    """Jenks branch: `bins[-1] = max_data`; fallback branch: `bins = np.unique(np.append(uv, max_data))`
-    followed by `uvk = len(bins)` (or a `bins[-1] = max_data` common to both branches)"""
-    f = find_func(mod, "_run_natural_break")
+    """Jenks branch: `BINS[-1] = <max>`; fallback branch: `BINS = np.unique(np.append(<uv>, <max>))` followed by
+    `<uvk> = len(BINS)`; the branches hang on `if <uvk> < k`; BINS is what `_bin` receives"""
+    f0 = find_func(mod, "_run_natural_break")
     jenks = fallback = False
-    if f is not None:
-        for n in f.body:
-            if isinstance(n, ast.If) and ast.unparse(n.test) == "uvk < k":
-                srcs = [ast.unparse(s) for s in n.body]
-                fallback = ("bins = np.unique(np.append(uv, max_data))" in srcs and "uvk = len(bins)" in srcs
-                            and srcs.index("bins = np.unique(np.append(uv, max_data))") < srcs.index("uvk = len(bins)"))
-                jenks = sets_last(n.orelse, "bins", "max_data")
+    if f0 is None:
+        return jenks, fallback
+    f = normalize(f0)
+    ba = bin_args(mod, f)
+    if ba is None or not isinstance(list(ba.values())[1], ast.Name) or len(f.args.args) != 3:
+        return jenks, fallback
+    bins = list(ba.values())[1].id
+    kparam = f.args.args[2].arg
+    mx = max_names(f)
+    for n in f.body:
+        if isinstance(n, ast.If) and isinstance(n.test, ast.Compare) and len(n.test.ops) == 1 and isinstance(n.test.ops[0], ast.Lt) \
+                and isinstance(n.test.left, ast.Name) and is_name(n.test.comparators[0], kparam):
+            uvk = n.test.left.id
+            pos_b = pos_l = None
+            for i, s_ in enumerate(n.body):
+                an = assign_name(s_)
+                if an and an[0] == bins and np_call(an[1], ("unique",)) and len(an[1].args) == 1 and not an[1].keywords \
+                        and np_call(an[1].args[0], ("append",)) and len(an[1].args[0].args) == 2 and not an[1].args[0].keywords \
+                        and isinstance(an[1].args[0].args[0], ast.Name) and is_max(an[1].args[0].args[1], mx):
+                    pos_b = i
+                if an and an[0] == uvk and ast.unparse(an[1]) == f"len({bins})":
+                    pos_l = i
+            fallback = pos_b is not None and pos_l is not None and pos_b < pos_l
+            jenks = last_forced(f, n.orelse, bins, lambda v: is_max(v, mx)) is not None
     return jenks, fallback
 
 
 def quantile_grid_indexed(mod):
-    """p = module.arange(1, k + 1) * w  (any commutation)  and an unconditional  p[-1] = 100.0"""
-    f = find_func(mod, "_run_quantile")
-    if f is None:
+    """P = <np>.arange(1, k + 1) * (100.0 / k)  (any commutation; the step may be a temporary)  and an unconditional
+    P[-1] = 100.0 afterwards, where P is what `<np>.percentile` receives as its percentile points"""
+    f0 = find_func(mod, "_run_quantile")
+    if f0 is None or len(f0.args.args) < 2:
         return False, "?"
-    src = "?"
-    indexed = False
-    for n in f.body:
-        if isinstance(n, ast.Assign) and len(n.targets) == 1 and ast.unparse(n.targets[0]) == "p":
-            src = ast.unparse(n.value)
-            v = n.value
-            if isinstance(v, ast.BinOp) and isinstance(v.op, ast.Mult):
-                for a, b in ((v.left, v.right), (v.right, v.left)):
-                    if ast.unparse(a) == "module.arange(1, k + 1)" and ast.unparse(b) == "w":
-                        indexed = True
-    forced = sets_last(f.body, "p", "100.0")
-    return indexed and forced, src
+    f = normalize(f0)
+    k = f.args.args[1].arg
+    pcs = [n for n in ast.walk(f) if np_call(n, ("percentile",))]
+    if len(pcs) != 1:
+        return False, "?"
+    try:
+        pa = bind(pcs[0], ["a", "q", "axis", "out", "overwrite_input", "method", "keepdims"])
+    except Refuse:
+        return False, "?"
+    if not isinstance(pa.get("q"), ast.Name):
+        return False, "?"
+    p = pa["q"].id
+    defs = [(i, assign_name(s_)[1]) for i, s_ in enumerate(f.body) if assign_name(s_) and assign_name(s_)[0] == p]
+    if len(defs) != 1:
+        return False, "?"
+    at, v = defs[0]
+    src = ast.unparse(v)
+
+    def is_grid(n):
+        if not np_call(n, ("arange",)):
+            return False
+        try:
+            a = bind(n, ["start", "stop", "step"])
+        except Refuse:
+            return False
+        return set(a) == {"start", "stop"} and const_int(a["start"]) == 1 and ast.unparse(a["stop"]) in (f"{k} + 1", f"1 + {k}")
+
+    def is_step(n):
+        return isinstance(n, ast.BinOp) and isinstance(n.op, ast.Div) and isinstance(n.left, ast.Constant) \
+            and n.left.value == 100 and not isinstance(n.left.value, bool) and is_name(n.right, k)
+    indexed = isinstance(v, ast.BinOp) and isinstance(v.op, ast.Mult) and \
+        ((is_grid(v.left) and is_step(v.right)) or (is_grid(v.right) and is_step(v.left)))
+    use = [i for i, s_ in enumerate(f.body) if any(n is pcs[0] for n in ast.walk(s_))]
+    hit = last_forced(f, f.body[:use[0]] if use else f.body, p,
+                      lambda x: isinstance(x, ast.Constant) and x.value == 100 and not isinstance(x.value, bool))
+    forced = hit is not None and hit > at
+    return bool(indexed and forced), src
 
 
 def eq_int_last_forced(mod):
-    f = find_func(mod, "_run_equal_interval")
-    if f is None:
+    """`CUTS[-1] = <max>` at the top level of `_run_equal_interval`, after every other statement that touches CUTS and
+    before `_bin(agg, CUTS, ...)`"""
+    f0 = find_func(mod, "_run_equal_interval")
+    if f0 is None:
         return False
-    if not sets_last(f.body, "cuts", "max_data"):
+    f = normalize(f0)
+    ba = bin_args(mod, f)
+    if ba is None or not isinstance(list(ba.values())[1], ast.Name):
         return False
-    calls = [n for n in ast.walk(f) if isinstance(n, ast.Call) and ast.unparse(n.func) == "_bin"]
-    return len(calls) == 1 and len(calls[0].args) >= 2 and ast.unparse(calls[0].args[1]) == "cuts"
+    cuts = list(ba.values())[1].id
+    call = unique_call(f, "_bin")
+    use = [i for i, s_ in enumerate(f.body) if any(n is call for n in ast.walk(s_))]
+    if len(use) != 1:
+        return False
+    mx = max_names(f)
+    hit = last_forced(f, f.body[:use[0]], cuts, lambda v: is_max(v, mx))
+    return hit is not None
 
 
-NP = ("np", "numpy", "module")
-OPERANDS = ("data", "bins", "new_values")
-
-
-def dtype_expr(n):
+def dtype_expr(n, data="data"):
     """a dtype argument -> ('dtype', name) | ('dataDtype',) | None"""
-    src = ast.unparse(n)
-    if isinstance(n, ast.Constant) and isinstance(n.value, str):
-        return ("dtype", n.value)
-    if isinstance(n, ast.Attribute) and isinstance(n.value, ast.Name) and n.value.id in NP:
-        return ("dtype", n.attr)
-    if src == "data.dtype":
+    if ast.unparse(n) == f"{data}.dtype":
         return ("dataDtype",)
-    if isinstance(n, ast.Name) and n.id in ("float", "int"):
-        return ("dtype", {"float": "float64", "int": "int64"}[n.id])
-    return None
+    d = dtype_name(n)
+    return None if d == "?" else ("dtype", d)
 
 
-def cast_of(value, name):
-    """the right-hand side of `name = value` as a cast of `name`"""
-    src = ast.unparse(value)
-    if isinstance(value, ast.Name) and value.id == name:
-        return ("none",)
-    if isinstance(value, ast.Call):
-        f = value.func
-        is_np = isinstance(f, ast.Attribute) and isinstance(f.value, ast.Name) and f.value.id in NP
-        if is_np and f.attr in ("asarray", "asanyarray", "array", "ascontiguousarray") and len(value.args) >= 1 \
-                and isinstance(value.args[0], ast.Name) and value.args[0].id == name:
-            dt = list(value.args[1:2]) + [k.value for k in value.keywords if k.arg == "dtype"]
-            other_kw = [k.arg for k in value.keywords if k.arg not in ("dtype", "copy", "order")]
-            if len(value.args) > 2 or other_kw or len(dt) > 1:
-                return ("other", src)
-            if not dt:
-                return ("none",)
-            return dtype_expr(dt[0]) or ("other", src)
-        if isinstance(f, ast.Attribute) and f.attr == "astype" and isinstance(f.value, ast.Name) and f.value.id == name \
-                and len(value.args) == 1:
-            return dtype_expr(value.args[0]) or ("other", src)
+def compose(c1, c2, src):
+    if c1 == ("none",):
+        return c2
+    if c2 == ("none",):
+        return c1
     return ("other", src)
 
 
+def cast_expr(e, env, data):
+    """an expression as (operand it comes from, cast applied to it), or None"""
+    if isinstance(e, ast.Name) and e.id in env:
+        return e.id, env[e.id]
+    if isinstance(e, ast.Call):
+        fn = e.func
+        if np_call(e, ("asarray", "asanyarray", "array", "ascontiguousarray")):
+            try:
+                a = bind(e, ["a", "dtype", "order"] if fn.attr != "array" else ["a", "dtype"])
+            except Refuse:
+                return None
+            inner = cast_expr(a["a"], env, data) if "a" in a else None
+            if inner is None or "order" in a:
+                return None
+            c = ("none",) if "dtype" not in a else (dtype_expr(a["dtype"], data) or ("other", ast.unparse(e)))
+            return inner[0], compose(inner[1], c, ast.unparse(e))
+        if isinstance(fn, ast.Attribute) and fn.attr == "astype":
+            try:
+                a = bind(e, ["dtype"])
+            except Refuse:
+                return None
+            inner = cast_expr(fn.value, env, data)
+            if inner is None or "dtype" not in a:
+                return None
+            return inner[0], compose(inner[1], dtype_expr(a["dtype"], data) or ("other", ast.unparse(e)), ast.unparse(e))
+    return None
+
+
 def run_bin_casts(mod):
-    """`_run_numpy_bin`: the casts of its three operands and whether the rest is the plain call of `_cpu_bin`"""
-    f = find_func(mod, "_run_numpy_bin")
-    casts = {n: ("none",) for n in OPERANDS}
-    if f is None or [a.arg for a in f.args.args] != list(OPERANDS):
-        return {n: ("other", "?") for n in OPERANDS}, False
-    ok, called, ret = True, None, None
+    """`_run_numpy_bin`: the casts of its three operands on their way into `_cpu_bin` (re-bindings of the parameters
+    and / or conversions written in the call itself) and whether the rest is the plain call of `_cpu_bin`"""
+    f0 = find_func(mod, "_run_numpy_bin")
+    cb = find_func(mod, "_cpu_bin")
+    bad = {n: ("other", "?") for n in ("data", "bins", "new_values")}
+    if f0 is None or cb is None or len(f0.args.args) != 3 or len(cb.args.args) != 3:
+        return bad, False
+    f = normalize(f0)
+    ops = [a.arg for a in f.args.args]
+    data = ops[0]
+    env = {n: ("none",) for n in ops}
+    ok, done = True, False
     for st in f.body:
-        if isinstance(st, ast.Expr) and isinstance(st.value, ast.Constant):
-            continue                                   # docstring
-        if isinstance(st, ast.Assign) and len(st.targets) == 1 and isinstance(st.targets[0], ast.Name):
-            tgt = st.targets[0].id
-            if tgt in OPERANDS and called is None:
-                c = cast_of(st.value, tgt)
-                if c != ("none",):
-                    casts[tgt] = c if casts[tgt] == ("none",) else ("other", ast.unparse(st.value))
-                continue
-            if called is None and ast.unparse(st.value) == "_cpu_bin(data, bins, new_values)":
-                called = tgt
-                continue
-        if isinstance(st, ast.Return) and st.value is not None and ret is None:
-            src = ast.unparse(st.value)
-            if called is None and src == "_cpu_bin(data, bins, new_values)":
-                called = ret = "<direct>"
-                continue
-            if called is not None and src == called:
-                ret = called
+        an = assign_name(st)
+        if an and an[0] in ops and not done:
+            ce = cast_expr(an[1], env, data)
+            env[an[0]] = ce[1] if ce is not None and ce[0] == an[0] else ("other", ast.unparse(an[1]))
+            continue
+        if isinstance(st, ast.Return) and not done and isinstance(st.value, ast.Call) and is_name(st.value.func, "_cpu_bin"):
+            try:
+                a = bind(st.value, func_params(cb))
+            except Refuse:
+                a = {}
+            if len(a) == 3:
+                for op, par in zip(ops, func_params(cb)):
+                    ce = cast_expr(a[par], env, data)
+                    env[op] = ce[1] if ce is not None and ce[0] == op else ("other", ast.unparse(a[par]))
+                done = True
                 continue
         ok = False
-        # a statement that is not understood may touch any operand
-        for n in ast.walk(st):
-            if isinstance(n, ast.Name) and isinstance(n.ctx, ast.Store) and n.id in OPERANDS:
-                casts[n.id] = ("other", ast.unparse(st).splitlines()[0])
-    return casts, bool(ok and called and ret)
+        for n in names_in(st, ast.Store):       # a statement that is not understood may touch any operand
+            if n.id in ops:
+                env[n.id] = ("other", ast.unparse(st).splitlines()[0])
+    return dict(zip(("data", "bins", "new_values"), (env[o] for o in ops))), bool(ok and done)
 
 
 def bin_chain_pass_through(mod):
-    """reclassify / _bin / _run_dask_numpy_bin hand the operands on unchanged"""
-    def stores(f, names):
-        return any(isinstance(n, ast.Name) and isinstance(n.ctx, ast.Store) and n.id in names for n in ast.walk(f))
+    """reclassify / _bin / _run_dask_numpy_bin hand the operands on unchanged (normal forms; arguments by name)"""
     rc, b, d = find_func(mod, "reclassify"), find_func(mod, "_bin"), find_func(mod, "_run_dask_numpy_bin")
-    if rc is None or b is None or d is None:
+    rn = find_func(mod, "_run_numpy_bin")
+    if rc is None or b is None or d is None or rn is None:
         return False
-    src_rc, src_b, src_d = ast.unparse(rc), ast.unparse(b), ast.unparse(d)
-    ok = not stores(rc, ("agg", "bins", "new_values")) and "out = _bin(agg, bins, new_values)" in src_rc
-    ok = ok and not stores(b, ("agg", "bins", "new_values")) and "numpy_func=_run_numpy_bin" in src_b \
-        and "dask_func=_run_dask_numpy_bin" in src_b and "out = mapper(agg)(agg.data, bins, new_values)" in src_b
-    ok = ok and not stores(d, ("data", "bins", "new_values")) \
-        and "_func = partial(_run_numpy_bin, bins=bins, new_values=new_values)" in src_d \
-        and "out = data.map_blocks(_func)" in src_d
-    return bool(ok)
+
+    def stores(f, names):
+        return any(n.id in names for n in names_in(f, ast.Store))
+    try:
+        # reclassify: `_bin(agg, bins, new_values)` with its own, never re-bound parameters
+        frc = normalize(rc)
+        ba = bin_args(mod, frc)
+        ok = ba is not None and [ast.unparse(v) for v in ba.values()] == ["agg", "bins", "new_values"] \
+            and not stores(frc, ("agg", "bins", "new_values"))
+        # _bin: return ArrayTypeFunctionMapping(numpy_func=_run_numpy_bin, dask_func=_run_dask_numpy_bin, ...)(agg)(agg.data, bins, new_values)
+        fb = normalize(b)
+        p = func_params(fb)
+        ok = ok and len(p) == 3 and len(fb.body) == 1 and isinstance(fb.body[0], ast.Return)
+        if ok:
+            c = fb.body[0].value
+            ok = isinstance(c, ast.Call) and not c.keywords and [ast.unparse(x) for x in c.args] == [p[0] + ".data", p[1], p[2]] \
+                and isinstance(c.func, ast.Call) and not c.func.keywords and [ast.unparse(x) for x in c.func.args] == [p[0]] \
+                and isinstance(c.func.func, ast.Call) and is_name(c.func.func.func, "ArrayTypeFunctionMapping")
+            if ok:
+                m = bind(c.func.func, ["numpy_func", "cupy_func", "dask_func", "dask_cupy_func"])
+                ok = is_name(m.get("numpy_func"), "_run_numpy_bin") and is_name(m.get("dask_func"), "_run_dask_numpy_bin")
+        # _run_dask_numpy_bin: return data.map_blocks(partial(_run_numpy_bin, bins=bins, new_values=new_values))
+        fd = normalize(d)
+        q = func_params(fd)
+        ok = ok and len(q) == 3 and len(fd.body) == 1 and isinstance(fd.body[0], ast.Return)
+        if ok:
+            c = fd.body[0].value
+            ok = isinstance(c, ast.Call) and isinstance(c.func, ast.Attribute) and c.func.attr == "map_blocks" \
+                and is_name(c.func.value, q[0]) and len(c.args) == 1 and not c.keywords \
+                and isinstance(c.args[0], ast.Call) and is_name(c.args[0].func, "partial") and len(c.args[0].args) == 1 \
+                and is_name(c.args[0].args[0], "_run_numpy_bin")
+            if ok:
+                rp = func_params(rn)
+                kw = {k.arg: k.value for k in c.args[0].keywords}
+                ok = set(kw) == {rp[1], rp[2]} and is_name(kw[rp[1]], q[1]) and is_name(kw[rp[2]], q[2])
+        return bool(ok)
+    except (Refuse, KeyError, IndexError, AttributeError):
+        return False
 
 
 def lean_cast(c):
@@ -367,8 +592,8 @@ def generate(repo):
         sh, ok = {}, False
         rep["cpu_bin_no_match"] = str(ex)
     rep["cpuBinShape"] = dict(sh, ok=ok)
-    kdt = dtype_of_zeros(find_func(mod, "_run_jenks"), "kclass")
-    mdt = dtype_of_zeros(find_func(mod, "_run_numpy_jenks_matrices"), "var_combinations")
+    kdt = dtype_of_returned_zeros(find_func(mod, "_run_jenks"))
+    mdt = dtype_of_returned_zeros(find_func(mod, "_run_numpy_jenks_matrices"), 1)
     nbj, nbf = natural_break_facts(mod)
     qg, qsrc = quantile_grid_indexed(mod)
     eq = eq_int_last_forced(mod)
